@@ -27,6 +27,10 @@ pub struct Plan {
     pub base: Script,
     pub items: Vec<Item>,
     pub close_code: u32,
+    /// server under test: datagrams naming these (foreign) sessions are sent right behind the
+    /// CONNECT request, while the application has not accepted the session yet
+    #[serde(default)]
+    pub early_foreign: Vec<u64>,
 }
 
 /// The live session's id: 4 x the number of streams the raw client burnt before its CONNECT.
@@ -100,7 +104,18 @@ pub fn gen_plan(seed: u64, index: usize, _tier: Tier) -> Plan {
             }
         }
     }
-    Plan { base, items, close_code: rng.next_u64() as u32 }
+    let mut early_foreign = Vec::new();
+    if server_under_test && rng.chance_pm(300) {
+        base.accept_delay_ms = *rng.pick(&[100u64, 600]);
+        for _ in 0..rng.usize(1, 3) {
+            let mut sid = foreign_sid(&mut rng, own);
+            if sid == own {
+                sid = own + 4;
+            }
+            early_foreign.push(sid);
+        }
+    }
+    Plan { base, items, close_code: rng.next_u64() as u32, early_foreign }
 }
 
 fn payload(tag: u32, own: bool) -> Vec<u8> {
@@ -109,6 +124,16 @@ fn payload(tag: u32, own: bool) -> Vec<u8> {
 
 pub fn compile(p: &Plan) -> Script {
     let mut acts = valid_prologue(p.base.server_under_test);
+    if !p.early_foreign.is_empty() {
+        // in front of the final WaitSession of the prologue
+        let wait = acts.pop();
+        for (j, sid) in p.early_foreign.iter().enumerate() {
+            let mut d = rc::varint(sid / 4);
+            d.extend_from_slice(&payload(9000 + j as u32, false));
+            acts.push(Act::Datagram { hex: hex(&d) });
+        }
+        acts.extend(wait);
+    }
     acts.push(Act::Gap);
     for (i, it) in p.items.iter().enumerate() {
         let slot = 100 + i;
